@@ -847,3 +847,37 @@ Lemma precede_literal_refuted :
   preceded minInt64 (wal_records (h_wal (run ex_history))) = false /\
   preceded 100 (wal_records (h_wal (run ex_history))) = true.
 Proof. vm_compute. auto. Qed.
+(* ------------------------------------------------------------------ the agent's truncate is an instance too *)
+Theorem agent_truncate_records a mint gone last :
+  plan_last (w_first (a_wal a)) (w_cur (a_wal a)) = Some last ->
+  w_cpidx (a_wal a) <= last ->
+  StronglySorted seg_le (w_segs (a_wal a)) ->
+  let low := cp_input (a_wal a) last in
+  let high := map snd (filter (fun sr => last <? fst sr) (w_segs (a_wal a))) in
+  let ser := filter (fun r => negb (memz r gone)) (a_series a) in
+  let del := set_all gone (w_cur (a_wal a)) (a_deleted a) in
+  wal_records (a_wal a) = low ++ high /\
+  wal_records (a_wal (agent_truncate a mint gone)) = checkpoint (agent_keep ser del last) mint low ++ high.
+Proof.
+  intros Hp Hc Hs low high ser del. split.
+  - unfold low, high, cp_input, wal_records. rewrite <- app_assoc, <- map_app. do 2 f_equal.
+    symmetry. apply split_sorted; auto.
+  - unfold agent_truncate. rewrite Hp. unfold wal_records; simpl. rewrite filter_idem. reflexivity.
+Qed.
+
+(* the agent keeps a series record as long as a segment that may hold its samples is left: with the
+   checkpoint taken up to `last`, every record in a later segment belongs to a series that is kept *)
+Theorem agent_truncate_preceded a mint gone last :
+  plan_last (w_first (a_wal a)) (w_cur (a_wal a)) = Some last ->
+  w_cpidx (a_wal a) <= last ->
+  StronglySorted seg_le (w_segs (a_wal a)) ->
+  let ser := filter (fun r => negb (memz r gone)) (a_series a) in
+  let del := set_all gone (w_cur (a_wal a)) (a_deleted a) in
+  (forall x, In x (flat_map (rec_refs_at mint) (wal_records (a_wal a))) -> agent_keep ser del last x = true) ->
+  preceded mint (wal_records (a_wal a)) = true ->
+  preceded mint (wal_records (a_wal (agent_truncate a mint gone))) = true.
+Proof.
+  intros Hp Hc Hs ser del HK HP.
+  destruct (agent_truncate_records a mint gone last Hp Hc Hs) as [E1 E2].
+  rewrite E2. rewrite E1 in HK, HP. apply checkpoint_preceded; auto.
+Qed.
